@@ -103,6 +103,7 @@ class C20(Check):
                 f = gen.Features(**dict(feat.__dict__, recursion=False))
                 ir, table, js = gen.build_schema(d, f)
             ir2, table2 = gen.cosmetic_variant(d, ir, table)
+            self._sanitize(ir2, table2)
             js = gen.Renderer(d, f, table2).render(ir2, "")
             labels = gen.schema_labels(ir, table)
             mode = "seed" if ("s:recursive" in labels or d.p(0.35)) else "tape"
@@ -113,6 +114,52 @@ class C20(Check):
             return {"schema": js, "n": d.choice([1, 2, 3, 5, 1, 0]), "mode": mode, "tape": tape, "seed": d.rng(0, 10**6), "parsed": d.p(0.4)}
 
         return cases()
+
+    def _sanitize(self, ir, table):
+        """Defaults drawn for the undecorated types may lie outside a logical type's domain (int 2147483647 as a
+        date): drop all defaults.  A uuid string next to an enum in one union is known finding F-UUID-UNCHECKED."""
+        def visit(node):
+            k = node["k"]
+            if k == "record":
+                for f in node["fields"]:
+                    f.pop("default", None)
+                    visit(f["type"])
+            elif k == "array":
+                visit(node["items"])
+            elif k == "map":
+                visit(node["values"])
+            elif k == "union":
+                has_enum = any(M.deref(b, table)["k"] == "enum" for b in node["branches"] if b["k"] != "ref" or b["name"] in table)
+                for b in node["branches"]:
+                    if has_enum and b.get("logical", {}).get("type") == "uuid":
+                        del b["logical"]
+                    visit(b)
+        visit(ir)
+        for d in table.values():
+            if d["k"] == "enum":
+                d.pop("default", None)
+
+    def _uuid_next_to_enum(self, node, table, seen=None):
+        seen = seen if seen is not None else set()
+        k = node["k"]
+        if k == "ref":
+            if node["name"] in seen:
+                return False
+            seen.add(node["name"])
+            return self._uuid_next_to_enum(table[node["name"]], table, seen)
+        if k == "record":
+            seen.add(node["name"])
+            return any(self._uuid_next_to_enum(f["type"], table, seen) for f in node["fields"])
+        if k == "array":
+            return self._uuid_next_to_enum(node["items"], table, seen)
+        if k == "map":
+            return self._uuid_next_to_enum(node["values"], table, seen)
+        if k == "union":
+            ks = [M.deref(b, table) for b in node["branches"]]
+            if any(b.get("logical", {}).get("type") == "uuid" for b in ks) and any(b["k"] == "enum" for b in ks):
+                return True
+            return any(self._uuid_next_to_enum(b, table, seen) for b in node["branches"])
+        return False
 
     def _supercritical(self, ir, table):
         """Is some recursive reference reached through an array or map?"""
@@ -258,7 +305,11 @@ class C20(Check):
             node, table = M.resolve(case["schema"])
             return self._supercritical(node, table)
 
-        return {"supercritical-recursion": supercritical}
+        def uuid_enum(case, message):
+            node, table = M.resolve(case["schema"])
+            return self._uuid_next_to_enum(node, table)
+
+        return {"supercritical-recursion": supercritical, "uuid-next-to-enum": uuid_enum}
 
 
 CHECK = C20()
